@@ -1,10 +1,25 @@
+import re
 from . import evaluate, numeric, structure, reduce, symbolic, wrappers, frame, ordering, history, gfam
+from .common import method_threshold
 
 MODULES = [evaluate, numeric, structure, reduce, symbolic, wrappers, frame, ordering, history, gfam]
+
+_KFAM = re.compile(r"(Add|Multiply)\[k=(\d+)\]\.(\w+)")
 
 
 def all_specs(prog, tier):
     out = []
     for m in MODULES:
         out += m.specs(prog, tier)
-    return out
+    # arities beyond the tier's K are only kept for the methods whose code branches on an arity
+    # threshold that large (otherwise K = 3 / 4 already covers every code path shape)
+    base_k = 3 if tier == "quick" else 4
+    kept = []
+    for s in out:
+        m = _KFAM.search(s.name)
+        if m and int(m.group(2)) > base_k:
+            cls = prog.classes[m.group(1)]
+            if int(m.group(2)) > min(method_threshold(prog, cls, m.group(3)) + 1, 7):
+                continue
+        kept.append(s)
+    return kept
